@@ -209,18 +209,32 @@ def enc_expr(e):
     raise TypeError('not a license expression node: %r' % (e,))
 
 
-def build_expr(d, licensing=None):
-    """Build implementation objects from the encoded tree (no parsing involved)."""
+class UserRecord(object):
+    """A user object with a key and an exception flag, as a table of objects holds them."""
+    def __init__(self, key, is_exception=False):
+        self.key = key
+        self.is_exception = is_exception
+
+
+def build_expr(d, licensing=None, like=False):
+    """Build implementation objects from the encoded tree (no parsing involved). With like=True every license is a
+    LicenseSymbolLike wrapping a user object, as an expression parsed over a table of objects has them."""
     le = imp()
+    if like:
+        def mk(k, ex):
+            return le.LicenseSymbolLike(UserRecord(k, ex))
+    else:
+        def mk(k, ex):
+            return le.LicenseSymbol(k, is_exception=ex)
     tag = d[0]
     if tag == 0:
         a = d[1]
         if a[0] == 0:
-            return le.LicenseSymbol(dec_str(a[1][0]), is_exception=bool(a[1][1]))
-        l = le.LicenseSymbol(dec_str(a[1][0]), is_exception=bool(a[1][1]))
-        r = le.LicenseSymbol(dec_str(a[2][0]), is_exception=bool(a[2][1]))
+            return mk(dec_str(a[1][0]), bool(a[1][1]))
+        l = mk(dec_str(a[1][0]), bool(a[1][1]))
+        r = mk(dec_str(a[2][0]), bool(a[2][1]))
         return le.LicenseWithExceptionSymbol(l, r)
-    args = [build_expr(x) for x in d[1]]
+    args = [build_expr(x, like=like) for x in d[1]]
     return (le.AND if tag == 1 else le.OR)(*args)
 
 
